@@ -65,3 +65,8 @@ def contracts(tier):
 
 
 LEVEL = "proof"
+EXPLANATION = ("Unbounded inductive proof on the real HeaderPacketReceiver with enable / usb_reset free. On the unchanged tree the check "
+               "reports a genuine defect (the re-initialisation block is only evaluated in DISPATCH_COMMAND; the advertised number is "
+               "next_header_to_ack-1 rather than the last received number); proposed_fixes/C38_restart_advertisement_from_any_state.diff "
+               "makes every obligation pass.")
+ASSUMPTIONS = ["no header packets / link commands are received while the link is down", "partner respects credits (as C37)"]
